@@ -14,7 +14,7 @@ META = {
                   'xrspatial.zonal._crosstab_df_dask', 'xrspatial.zonal._select_ids', 'xrspatial.utils.validate_arrays'],
     'bounds': {'quick': 'zones / values rasters of 3 cells (1x3) and 4 cells (2x2): every chunk grid of the zones raster (4) x a different chunking of the values raster; zone ids symbolic (NaN allowed), '
                         'values symbolic (NaN allowed), nodata symbolic; statistics count, min, max, sum, mean (std / var on NaN-free 1x3); zone_ids selections; crosstab count / percentage with '
-                        'zone_ids and cat_ids selections',
+                        'zone_ids and cat_ids selections; integer zones / values on 1x3 with uneven chunks',
                'thorough': '1x4 and 2x3 rasters with every chunk grid'},
     'stubs': ['dask.array / dask.delayed / dask.dataframe = sx.symda + sx.minipd contract shims (to_delayed per block, delayed calls, from_delayed, stack, concat, DataFrame column / row selection); '
               'validated by replaying sampled path models on real dask'],
